@@ -50,10 +50,12 @@ Definition fold_with (text : list A) (b : list nat) : result (list (list A) * li
 
 Definition fold (text : list A) (nfolds : Z) (fb : option (list nat))
   : result (list (list A) * list nat) :=
+  (* fix 3836b17: the number of folds is checked first, in every case (ValueError) *)
+  do dflt <- boundaries (length text) nfolds;
   if (nfolds =? 1)%Z then Ok ([text], [0])
   else match fb with
        | Some b => fold_with text b
-       | None => do b <- boundaries (length text) nfolds; fold_with text b
+       | None => fold_with text dflt
        end.
 
 (* unfold(folds, index): index at least as long as folds (else IndexError) *)
